@@ -14,12 +14,19 @@
 (*                     what a session does while it lives                  *)
 (*   Close(t, why)     kill_session: close() + slab removal + decr()       *)
 (*   SetPerIpLimit(n)  RequestType::SetMaxConnectionsPerIp                 *)
+(*   SetOverride(c, v) RequestType::AddCluster for a cluster that exists,  *)
+(*                     with another max_connections_per_ip                 *)
 (* Environment: Connect(s), Tick.                                          *)
 (*                                                                         *)
 (* Counters (nb, poolUsed, conns, perIp) are explicit variables; a session *)
 (* remembers what it took (sess[t].bufs, .backs, tracks[t]) and every exit *)
 (* path gives back exactly that.  P_C16_Baseline is therefore a genuine    *)
 (* invariant of the transition system, not a definition.                   *)
+(* `held` is what the STATEMENT counts - the connections the per-(cluster,  *)
+(* ip) gate let through - next to what the code records (`tracks`):        *)
+(* P_C16_SlotRecorded / P_C16_PerIpServed say that the two agree whatever   *)
+(* the limit was when a connection came (limits are switched on at run     *)
+(* time).  Deviations LazyTrack / SlotLeakOnFail are refuted by TLC.        *)
 (***************************************************************************)
 EXTENDS Integers, Sequences, FiniteSets, TLC, Json
 
